@@ -2822,6 +2822,11 @@ class ConcreteSyntaxUsedVariablesCollector(IslaLanguageListener.IslaLanguageList
         )
 
 
+class BailLexerErrorListener(antlr4.error.ErrorListener.ErrorListener):
+    def syntaxError(self, recognizer, offending_symbol, line, column, msg, e):
+        raise SyntaxError(f"line {line}:{column} {msg}")
+
+
 class BailPrintErrorStrategy(antlr4.BailErrorStrategy):
     def recover(self, recognizer: antlr4.Parser, e: antlr4.RecognitionException):
         recognizer._errHandler.reportError(recognizer, e)
@@ -4041,6 +4046,8 @@ class BnfEmitter(bnfListener.bnfListener):
 
 def parse_bnf(inp: str) -> Grammar:
     lexer = bnfLexer(InputStream(inp))
+    lexer.removeErrorListeners()
+    lexer.addErrorListener(BailLexerErrorListener())
     parser = bnfParser(antlr4.CommonTokenStream(lexer))
     parser._errHandler = BailPrintErrorStrategy()
     bnf_emitter = BnfEmitter()
